@@ -1752,6 +1752,8 @@ class HealSparseMap(object):
 
         if in_place:
             new_map = self
+            # We invalidate the n_valid cache here.
+            self._n_valid = None
         else:
             new_map = HealSparseMap(cov_map=self._cov_map.copy(),
                                     sparse_map=self._sparse_map.copy(),
